@@ -427,14 +427,36 @@ def _instance_attr(m, q, name):
     return False
 
 
-def redispatch_targets(handler):
+def redispatch_targets(handler, model=None, names=None, _depth=0):
     """If a handler forwards the *same* node to another formatter's print (`self.parent.print(*args, **kwargs)`,
-    `self.parent.print(printer, node)`), return the list of parent-chain depths it forwards to."""
+    `self.parent.print(printer, node)`), return the list of parent-chain depths it forwards to.  With a model and the class
+    names of the node being printed, a hand-over to another handler of the same formatter (`self.print_SequenceNode(printer,
+    node)`, not super()) is followed into that handler when the isinstance tests on the way allow it for this class."""
     out = []
     params = func_params(handler.node)
     passthrough = set(params[1:])
     if handler.node.args.vararg:
         passthrough.add("*" + handler.node.args.vararg.arg)
+    if model is not None and names is not None and handler.cls and _depth < 2:
+        for c in walk_no_nested(handler.node):
+            if isinstance(c, ast.Call) and self_attr(c.func) and self_attr(c.func).startswith("print_") and self_attr(c.func) != handler.node.name:
+                argn = [("*" + a.value.id if isinstance(a, ast.Starred) and isinstance(a.value, ast.Name) else (a.id if isinstance(a, ast.Name) else None))
+                        for a in c.args]
+                if not argn or not all(a is not None and a in passthrough for a in argn):
+                    continue
+                feasible = True
+                for t, pol in flatten_conditions(dominating_conditions(c)):
+                    if isinstance(t, ast.Call) and call_name(t) == "isinstance" and len(t.args) == 2 and isinstance(t.args[0], ast.Name) \
+                            and t.args[0].id in passthrough:
+                        ts = t.args[1].elts if isinstance(t.args[1], ast.Tuple) else [t.args[1]]
+                        holds = any((dotted(x) or "").rsplit(".", 1)[-1] in names for x in ts)
+                        if holds != pol:
+                            feasible = False
+                if not feasible:
+                    continue
+                h2 = model.method(handler.cls, self_attr(c.func))
+                if h2 is not None:
+                    out += redispatch_targets(h2, model, names, _depth + 1)
     for c in walk_no_nested(handler.node):
         if not (isinstance(c, ast.Call) and isinstance(c.func, ast.Attribute) and c.func.attr == "print"):
             continue
@@ -497,7 +519,7 @@ def e5_cycles(ctx, roots, node_classes):
                         seen.append(key)
                         if h is None:
                             break
-                        depths = redispatch_targets(h)
+                        depths = redispatch_targets(h, m, set(names))
                         if not depths:
                             break
                         nxt = owner
